@@ -60,7 +60,7 @@ Definition offers_comprehension (q : query) (jm : option jmap) (A : list rec) : 
 Definition join_map_of (q : query) (B : list rec) : option (option jmap) :=
   match q_join q with
   | None => Some None
-  | Some js => match build (j_rhs js) B with inl m => Some (Some m) | inr _ => None end
+  | Some js => match build (j_rhs js) B with inl m => Some (Some (widen (j_bhdr js) m)) | inr _ => None end
   end.
 
 Definition plain_select (q : query) : Prop :=
